@@ -328,3 +328,53 @@ register("C10",
          "and call list required; plus the well-formedness oracle (a program satisfying the documented rules must be "
          "accepted); non-trivial = accepted base program",
          [_c10_part, planner_part("C10", _nt_accepted)])
+
+
+def _planted_oracle(kind_tokens):
+    """e2e oracle for planted defects: the program must be rejected with the right diagnostic class"""
+    def extra(rep, units, info):
+        fails = []
+        for ur in units:
+            pl = getattr(ur.u, "planted", None)
+            if not pl or pl[0] not in kind_tokens or (ur.impl or "") == "blocked":
+                continue
+            imp = ur.impl or ""
+            want = kind_tokens[pl[0]]
+            if imp.startswith("ok") or not any(t.startswith(want) for t in imp.split()[1:]):   # want: prefix or tuple of prefixes
+                from . import e2e_eval as EV
+                fails.append({"stream": "e2e-planted", "request": ur.request, "impl": imp,
+                              "why": ["planted defect (%s: %s) but wire answered: %s" % (pl[0], pl[1], imp[:200])],
+                              "program": ur.prog.name, "files": EV.G.materialise(ur.prog)})
+        return [], fails
+    return extra
+
+
+def _planted(ur):
+    return getattr(ur.u, "planted", None) is not None
+
+
+# re-register the planner properties with an additional source-level (e2e) part
+for _name, _kinds, _rule in [
+        ("C05", {"dup": "multi:"}, "two sources for one type"),
+        ("C06", {"missing": ("noprov:", "bindmissing:")}, "a needed source removed"),
+        ("C08", {"unused": "unused"}, "a superfluous direct item")]:
+    _unit_nt = {"C05": _nt_dups, "C06": _nt_missing, "C08": _nt_unused}[_name]
+    register(_name,
+             "unit tier: random provider-set DAGs through the real buildProviderMap/verifyAcyclic/solve (see planner streams); "
+             "e2e tier: generated Go programs with a planted defect (%s) run through the real wire binary, diagnostics classified "
+             "and compared with the model's verdict; non-trivial = the defect is present" % _rule,
+             [planner_part(_name, _unit_nt),
+              e2e_part(_name, [("x", {"plant": list(_kinds), "units": [1, 2]})], _pairs_plan, set(), _planted,
+                       n_quick=60, n_thorough=600, build=False, runit=False, extra=_planted_oracle(_kinds))])
+
+register("C09",
+         "exhaustive: every result list of length 0..4 over 8 result-type varieties (value, error, func(), named func "
+         "type, alias of func(), other func type, named error type, basic) through the real funcOutput and "
+         "processFuncProvider; every parameter list of length <=4 over three types (spelled afresh per occurrence); "
+         "e2e: generated programs whose injector lacks the error / cleanup result a planned provider needs; "
+         "non-trivial = list of length >= 2 / planted program",
+         [stream_part("C09", lambda tier: [("signatures", "sig", ["-nodes", 4])],
+                      nontrivial=lambda case, im: len(case.get("raw", [])) >= 3, exhaustive=True),
+          e2e_part("C09", [("g", {"plant": ["neederr", "needcleanup"], "p_err": 0.6, "p_cleanup": 0.6, "units": [1, 2]})],
+                   _pairs_plan, set(), _planted, n_quick=60, n_thorough=600, build=False, runit=False,
+                   extra=_planted_oracle({"neederr": "neederr:", "needcleanup": "needcleanup:"}))])
